@@ -385,6 +385,34 @@ def nj_lens(shape, variant):
     return lens_from_pattern(shape, lambda i, leaf: (0.0 if i % 3 == 0 else 0.75) if leaf else [0.5, 1.25, 2.0][i % 3])
 
 
+CSV_LAYOUTS = {"csv-path": (True, True, True), "csv-noheader": (False, True, False), "csv-norownames": (True, False, False),
+               "csv-path-noheader": (False, True, True), "csv-path-norownames": (True, False, True)}
+
+
+def _via_csv_layout(pdm, ns, header, rownames, by_path):
+    """the table without its header row or without its row-name column (the two layout flags of from_csv), from a stream or from a path"""
+    import os
+    import tempfile
+    out = io.StringIO()
+    pdm.write_csv(out, is_normalize_by_tree_size=False)
+    lines = out.getvalue().strip("\n").split("\n")
+    if not header:
+        lines = lines[1:]
+    if not rownames:
+        lines = [",".join(l.split(",")[1:]) for l in lines]
+    text = "\n".join(lines) + "\n"
+    kw = dict(taxon_namespace=ns, is_allow_new_taxa=False, is_first_row_column_names=header, is_first_column_row_names=rownames)
+    if not by_path:
+        return PhylogeneticDistanceMatrix.from_csv(io.StringIO(text), **kw)
+    fd, p = tempfile.mkstemp(suffix=".csv")
+    try:
+        with os.fdopen(fd, "w") as f:
+            f.write(text)
+        return PhylogeneticDistanceMatrix.from_csv(p, **kw)
+    finally:
+        os.unlink(p)
+
+
 def _via_csv(pdm, ns, relabel=False):
     out = io.StringIO()
     if relabel:
@@ -414,6 +442,8 @@ def eval_recon(item):
             pdm = src.phylogenetic_distance_matrix()
             if route in ("csv", "csv-relabelled"):
                 pdm = _via_csv(pdm, src.taxon_namespace, relabel=(route == "csv-relabelled"))
+            elif route in CSV_LAYOUTS:
+                pdm = _via_csv_layout(pdm, src.taxon_namespace, *CSV_LAYOUTS[route])
             fn = pdm.nj_tree if method == "nj" else pdm.upgma_tree
             res = fn(is_weighted_edge_distances=(route != "counts"))
     except Timeout:
@@ -662,6 +692,8 @@ def t2(ctx):
                             items.append({"spec": spec, "method": "nj", "route": route})
                             if route == "csv" and variant == 0 and n <= 4:
                                 items.append({"spec": spec, "method": "nj", "route": "csv-relabelled"})
+                                for lay in sorted(CSV_LAYOUTS):
+                                    items.append({"spec": spec, "method": "nj", "route": lay})
     for item, (key, n, fails) in zip(items, pmap(_w_recon, items, chunksize=16)):
         ctx.case(sc, key, nontrivial=n >= 4)
         for mon, detail in fails:
@@ -669,7 +701,7 @@ def t2(ctx):
 
     sc = "upgma@ultrametric"
     ctx.scope(sc, rule="shapes with 2..%d leaves x 3 assignments of dyadic node heights (+ one with every two-leaf cherry at height 0, from 3 leaves) x {identity, reversed labelling} x route in {matrix "
-                       "of the tree, CSV round trip (up to 4 leaves also with labels rewritten on the way out and back by label_transform_fn), edge-count matrix (shapes with all leaves at one depth)}; non-trivial = >= 4 leaves"
+                       "of the tree, CSV round trip (up to 4 leaves also with labels rewritten on the way out and back by label_transform_fn, and in the layouts without header row / without row-name column, from a stream and from a path), edge-count matrix (shapes with all leaves at one depth)}; non-trivial = >= 4 leaves"
                        "; from 6 leaves identity labelling and no CSV route; 7 leaves: every third shape" % (6 if quick else 7), exhaustive=True)
     items = []
     for n in range(2, (6 if quick else 7) + 1):
@@ -692,6 +724,8 @@ def t2(ctx):
                         items.append({"spec": spec, "method": "upgma", "route": route})
                         if route == "csv" and variant == 0 and n <= 4:
                             items.append({"spec": spec, "method": "upgma", "route": "csv-relabelled"})
+                            for lay in sorted(CSV_LAYOUTS):
+                                items.append({"spec": spec, "method": "upgma", "route": lay})
     for item, (key, n, fails) in zip(items, pmap(_w_recon, items, chunksize=16)):
         ctx.case(sc, key, nontrivial=n >= 4)
         for mon, detail in fails:
